@@ -1,5 +1,5 @@
 #!/usr/bin/env python3
-"""Rewrites the table between the SEEDED-TABLE markers of DESIGN.md from seeded/*/*/meta.json."""
+"""Rewrites the table between the SEEDED-TABLE and /SEEDED-TABLE markers of DESIGN.md from seeded/*/*/meta.json."""
 import glob
 import json
 import os
@@ -24,6 +24,6 @@ for meta in sorted(glob.glob(os.path.join(HERE, "seeded", "C*", "*", "meta.json"
 table = "| change | confirmed (tests pass, demo fails only with it) | what it is / needs | detected by (quick check exit 1) | first line of the check's report |\n|---|---|---|---|---|\n" + "\n".join(rows)
 p = os.path.join(HERE, "DESIGN.md")
 s = open(p).read()
-s = re.sub(r"<!-- SEEDED-TABLE -->.*?(?=\n## 9\.)", lambda m: "<!-- SEEDED-TABLE -->\n" + table + "\n", s, flags=re.S)
+s = re.sub(r"<!-- SEEDED-TABLE -->.*?<!-- /SEEDED-TABLE -->", lambda m: "<!-- SEEDED-TABLE -->\n" + table + "\n<!-- /SEEDED-TABLE -->", s, flags=re.S)
 open(p, "w").write(s)
 print(len(rows), "rows")
